@@ -25,6 +25,25 @@ pub mod gamma {
 #[derive(Debug, Clone, Serialize, Deserialize, PartialEq)]
 pub struct Empty {}
 
+/// A message whose serialization can fail half-way (after its first field has been written).
+#[derive(Debug, Clone, Deserialize, PartialEq)]
+pub struct Poison {
+    pub a: Vec<u8>,
+    pub fail: bool,
+}
+impl Serialize for Poison {
+    fn serialize<S: serde::Serializer>(&self, ser: S) -> Result<S::Ok, S::Error> {
+        use serde::ser::SerializeStruct;
+        let mut st = ser.serialize_struct("Poison", 2)?;
+        st.serialize_field("a", &self.a)?;
+        if self.fail {
+            return Err(serde::ser::Error::custom("poisoned"));
+        }
+        st.serialize_field("fail", &self.fail)?;
+        st.end()
+    }
+}
+
 struct GammaImpl(Log);
 #[anemo::async_trait]
 impl gamma::gamma_server::Gamma for GammaImpl {
@@ -47,6 +66,14 @@ impl gamma::gamma_server::Gamma for GammaImpl {
     async fn vec_bin(&self, r: Request<Vec<u8>>) -> Result<Response<Vec<u8>>, Status> {
         self.0.lock().unwrap().push("Gamma.VecBin".into());
         Ok(Response::new(r.into_body()).with_header("done", "1"))
+    }
+    async fn poison_bin(&self, r: Request<Poison>) -> Result<Response<Vec<u8>>, Status> {
+        self.0.lock().unwrap().push("Gamma.PoisonBin".into());
+        Ok(Response::new(r.into_body().a).with_header("done", "1"))
+    }
+    async fn poison_json(&self, r: Request<Poison>) -> Result<Response<Vec<u8>>, Status> {
+        self.0.lock().unwrap().push("Gamma.PoisonJson".into());
+        Ok(Response::new(r.into_body().a).with_header("done", "1"))
     }
     async fn vec_json(&self, r: Request<Vec<u8>>) -> Result<Response<Vec<u8>>, Status> {
         self.0.lock().unwrap().push("Gamma.VecJson".into());
@@ -195,6 +222,8 @@ fn typed_case(t: &[&str]) -> String {
                     "EmptyJson" => show(g.empty_json(Empty {}).await),
                     "VecBin" => show(g.vec_bin(v).await),
                     "VecJson" => show(g.vec_json(v).await),
+                    "PoisonBin" => show(g.poison_bin(Poison { a: v, fail: f.get(3) == Some(&"fail") }).await),
+                    "PoisonJson" => show(g.poison_json(Poison { a: v, fail: f.get(3) == Some(&"fail") }).await),
                     other => panic!("unknown tiny method {other}"),
                 };
             }
